@@ -180,7 +180,7 @@ fn check_renum(t: &mut Tape, ctx: &Ctx) -> Outcome {
     let mut term = Term::new();
     let mut op = Opts::default();
     op.replies = g.replies.iter().cloned().collect();
-    op.max_calls = 20_000;
+    op.max_calls = 5000;
     for l in &texts {
         term.enter_raw(l);
         term.run(&mut op);
